@@ -18,6 +18,8 @@ pub struct Dir {
     reader_waker: Option<Waker>,
     schedule: Vec<u8>,
     pos: usize,
+    /// consecutive spurious Pendings (bounded so that a schedule of zeros cannot livelock)
+    consec_pending: u8,
     /// total bytes written into this direction
     pub written: u64,
     /// copy of the first bytes written (to prove "no plaintext" in C15)
@@ -106,11 +108,13 @@ impl AsyncRead for PipeEnd {
         } else {
             let s = g.schedule[g.pos % g.schedule.len()];
             g.pos += 1;
-            if s == 0 {
+            if s == 0 && g.consec_pending < 3 {
+                g.consec_pending += 1;
                 cx.waker().wake_by_ref();
                 return Poll::Pending;
             }
-            step_len(s)
+            g.consec_pending = 0;
+            step_len(s).max(1)
         };
         let n = max.min(g.buf.len()).min(out.remaining());
         if n < 9 {
